@@ -227,7 +227,8 @@ fn code(op: &FOp) -> String {
         FOp::Fail => "F".into(),
         FOp::Read => "L".into(),
         FOp::Dropped => "X".into(),
-        FOp::MinL | FOp::MaxL => "m".into(),
+        FOp::MinL => "m".into(),
+        FOp::MaxL => "M".into(),
         FOp::Succs(n) => format!("N{}", n),
         FOp::Reset => "R".into(),
         FOp::CloneOp => "K".into(),
@@ -282,8 +283,10 @@ pub fn run_prog_traced<T: Target + ?Sized>(a: &T, tid: usize, prog: &[FOp]) -> V
         let c = code(op);
         atrace_push(format!("b{}:{}", tid, c));
         let r = run_op(a, op);
+        // the End marker carries what the call reported: `limit()` / `min_limit()` / `max_limit()` the value, the bare
+        // controller's `clone()` the limit the clone started from
         let res = match op {
-            FOp::Read => r.first().cloned().unwrap_or_else(|| "-".into()),
+            FOp::Read | FOp::MinL | FOp::MaxL | FOp::CloneOp => r.first().cloned().unwrap_or_else(|| "-".into()),
             _ => "-".into(),
         };
         atrace_push(format!("e{}:{}:{}", tid, c, res));
@@ -308,6 +311,19 @@ pub fn traced_sequential<T: Target + ?Sized>(a: &T, prog: &[FOp]) -> Vec<String>
     unobserve_here();
     obs("tr", trace_text(lc, None));
     o
+}
+
+/// the protocol-level lines of a round / warm-up (compared with what the model's verified checker derives from the
+/// trace): the claim, what every thread reported, the limit (and the in-flight count) the round left behind
+pub fn log_protocol(outs: &[Vec<String>], limit: usize, in_flight: Option<usize>) {
+    log("trace-ok".to_string());
+    for (i, o) in outs.iter().enumerate() {
+        log(format!("trace-th {} {}", i, render_outs(o)));
+    }
+    match in_flight {
+        Some(n) => log(format!("trace-end {} {}", limit, n)),
+        None => log(format!("trace-end {}", limit)),
+    }
 }
 
 pub fn render_outs(o: &[String]) -> String {
@@ -346,11 +362,10 @@ impl Mw for Adapter {
                 let o = traced_sequential(&*self.alg, &parse_prog(&kv.str("prog", "")));
                 log(format!("warm {}", render_outs(&o)));
                 log(format!("limit {}", self.alg.limit()));
-                log("trace-ok".to_string());
+                log_protocol(&[o], self.alg.limit(), None);
             }
             "sched" => {
-                let schedule: Vec<usize> =
-                    kv.str("s", "").split(',').filter(|x| !x.is_empty()).filter_map(|x| x.parse().ok()).collect();
+                let schedule: Vec<usize> = crate::sched::parse_schedule(&kv.str("s", ""));
                 let mut bodies: Vec<Box<dyn FnOnce() -> Vec<String> + Send>> = Vec::new();
                 let _ = atrace_take();
                 // which cell is the limit cell: the one `limit()` loads
@@ -368,7 +383,7 @@ impl Mw for Adapter {
                     log(format!("th {} {}", i, render_outs(o)));
                 }
                 log(format!("limit {}", self.alg.limit()));
-                log("trace-ok".to_string());
+                log_protocol(&outs, self.alg.limit(), None);
             }
             _ => {}
         }
